@@ -323,11 +323,11 @@ def stepBackend (deploy : Bool) (idx : Nat) (oj : Json) (op : Op) (b : BState) :
   let refKv := dumpEq sR.dump new
   let nm := opName oj
   let tags :=
+    (if op.isCreate && !createAtomicOK (!implOk) prev new then [s!"C23:create-not-atomic:{b.name}:{nm}"] else []) ++
     (if refRes && refKv then []
      else match knownDivergence b op implOk prev with
        | some t => [t]
-       | none => [s!"C23:diverge:{b.name}:{nm}:{if refRes then "kv" else "result"}"]) ++
-    (if op.isCreate && !createAtomicOK (!implOk) prev new then [s!"C23:create-not-atomic:{b.name}:{nm}"] else [])
+       | none => [s!"C23:diverge:{b.name}:{nm}:{if refRes then "kv" else "result"}"])
   let bad := !(okRes && okKv)
   let fb := if bad && b.firstBad.isNone then
       some (Json.mkObj [("step", ji idx), ("backend", Json.str b.name), ("op", Json.str nm),
